@@ -147,16 +147,17 @@ Qed.
 
 Lemma leaf_call_spec : forall l, leaf_units_ok l = true -> leaf_call l = sp_leaf l.
 Proof.
-  induction l as [o u | s | ra vs i | u inner IH | p inner IH | w inner IH]; intros H;
+  induction l as [o u | s | ra vs i | u inner IH | p inner IH | w inner IH | inner IH]; intros H;
     cbn [Model.leaf_call Spec.sp_leaf Spec.leaf_units_ok] in *; try reflexivity.
   - apply andb_true_iff in H. destruct H as [H1 H2]. rewrite (IH H1). now apply attach_compat.
   - destruct p; [now apply IH | reflexivity].
+  - now rewrite (IH H).
   - now rewrite (IH H).
 Qed.
 
 Lemma leaf_sg_spec : forall l, leaf_sg l = sp_group l.
 Proof.
-  induction l as [o u | s | ra vs i | u inner IH | p inner IH | w inner IH]; cbn [Model.leaf_sg Spec.sp_group]; try reflexivity; try exact IH.
+  induction l as [o u | s | ra vs i | u inner IH | p inner IH | w inner IH | inner IH]; cbn [Model.leaf_sg Spec.sp_group]; try reflexivity; try exact IH.
 Qed.
 
 Theorem field_value_spec : forall unit v,
